@@ -34,27 +34,6 @@ theorem tables_agree :
 /-- the uuid bound to `(kind, name)` after the run -/
 def uuidOf (out : Out N U) (k : Kind) (n : N) : Option U := lookup out.st k n
 
-/-! ### anatomy of a successful run -/
-
-theorem runOccs_ok {fresh : Nat → U} {st : St N U} {nx : Nat} {occs : List (Occ N U)} {out : Out N U}
-    (h : runOccs fresh st nx occs = .ok out) :
-    ∃ st1, recordAll st occs = .ok st1 ∧
-      out.st = (generateMissing fresh st1 nx).1 ∧ out.next = (generateMissing fresh st1 nx).2 ∧
-      out.groups = out.st.groups ∧
-      out.occs = (occs.filter (fun o => inOutput o.site)).map (assignOcc out.st) := by
-  unfold runOccs at h
-  cases h1 : recordAll st occs with
-  | error e => rw [h1] at h; cases h
-  | ok st1 =>
-    rw [h1] at h
-    simp only at h
-    cases h
-    exact ⟨st1, rfl, rfl, rfl, rfl, rfl⟩
-
-theorem lookup_of_truthy {st : St N U} {k : Kind} {n : N} {u : U} (h : Truthy st k n u) :
-    lookup st k n = some u := by
-  unfold lookup; unfold Truthy at h; rw [h]; rfl
-
 /-- after a run every name that occurred (at any site, or in the earlier state) has a uuid -/
 theorem uuidOf_isSome {fresh : Nat → U} {st : St N U} {nx : Nat} {occs : List (Occ N U)} {out : Out N U}
     (h : runOccs fresh st nx occs = .ok out) {o : Occ N U} (ho : o ∈ occs) :
